@@ -643,6 +643,8 @@ def run_concurrency(num, tier, seed, only=None):
         ev.violations += 1
         rc = 1
     ev.write()
+    if rc == 0 and getattr(ev, 'translation_mismatch', None):
+        raise core.ToolError(ev.translation_mismatch)
     return rc
 
 
@@ -664,6 +666,8 @@ def run_property(num, tier, seed, only=None):
     validate_translation(ev, sorted({q.meta['cont'] for q in qs}), seed, tier)
     core.run_all(qs)
     rc = finish(ev, num, tier, qs, known, only_conts=only)
+    if rc == 0 and getattr(ev, 'translation_mismatch', None):
+        raise core.ToolError(ev.translation_mismatch)
     return rc
 
 
@@ -681,7 +685,10 @@ def validate_translation(ev, conts, seed, tier):
         if not r['identical']:
             ev.notes.append('translation validation, %s: %s' % (c, r['note']))
             if r['fatal']:
-                raise core.ToolError('translation validation failed for %s: both runs completed but differ (%s): the encoding cannot be trusted' % (c, r['note']))
+                # Both runs completed but differ: a PASS from this encoding cannot be trusted.  A violation that the replay
+                # confirms on the real build stands on its own, so the check goes on and turns into a tool error only if
+                # it would otherwise report that the property held (see run_property / run_concurrency).
+                ev.translation_mismatch = 'translation validation failed for %s: both runs completed but differ (%s): the encoding cannot be trusted' % (c, r['note'])
     ev.extra['translation_validation'] = {c: {'lines_identical': r['lines'], 'identical': r['identical']} for c, r in res}
 
 
